@@ -97,7 +97,21 @@ fn main() {
             let l = f.loca(None).unwrap();
             let gl = f.glyf().unwrap();
             let gg = l.get_glyf(GlyphId::new(gid), &gl);
-            println!("{nm} gid {gid}: {:?}", gg.map(|g| g.map(|g| (g.number_of_contours(), g.offset_data().len()))));
+            println!("{nm} gid {gid}: {:?}", gg.as_ref().map(|g| g.as_ref().map(|g| (g.number_of_contours(), g.offset_data().len()))));
+            if let Ok(Some(read_fonts::tables::glyf::Glyph::Composite(c))) = &gg {
+                println!("   components {:?}", c.components().map(|c| (c.glyph.to_u32(), c.flags)).collect::<Vec<_>>());
+            }
+            if let Ok(hv) = f.hvar() {
+                let n = f.axes().len();
+                let lo = vec![font_types::F2Dot14::from_f32(-1.0); n];
+                println!("   HVAR adv_map {:?} lsb_map {:?} rsb_map {:?}", hv.advance_width_mapping_offset(), hv.lsb_mapping_offset(), hv.rsb_mapping_offset());
+                println!("   HVAR at all-min: adv delta {:?} lsb delta {:?}", hv.advance_width_delta(GlyphId::new(gid), &lo), hv.lsb_delta(GlyphId::new(gid), &lo));
+                if let Some(Ok(m)) = hv.lsb_mapping() { println!("   lsb map count {} fmt {:?} get {:?}", 0, m.entry_format(), m.get(gid)); }
+                if let Some(Ok(m)) = hv.advance_width_mapping() { println!("   adv map count {} fmt {:?} get {:?}", 0, m.entry_format(), m.get(gid)); }
+                if let Ok(ivs) = hv.item_variation_store() { println!("   ivs data count {} ", ivs.item_variation_data_count()); }
+            }
+            let gm = f.glyph_metrics(skrifa::instance::Size::unscaled(), skrifa::instance::LocationRef::default());
+            println!("   adv {:?} lsb {:?}", gm.advance_width(GlyphId::new(gid)), gm.left_side_bearing(GlyphId::new(gid)));
         }
     }
 }
